@@ -236,3 +236,31 @@ Example src_paths_run :
     = Some (mkPIO "out" M_tile_path_LXY "L{1}X{2}Y{3}" "npy") /\
   src_PyramidIO_init (fun _ _ => "npy"%string) "out" "XYL" None = None.
 Proof. vm_compute. repeat split. Qed.
+
+(* ------------------------------------------------------------------ *)
+(* `toasty tile-wwtl` (cli.tile_wwtl_impl), tied by TRANSLATION: Generated/CliWwtlSrc.v is the
+   function as harness/py2coq.py reads it from toasty/cli.py in /repo's working tree on every
+   build (assigned method calls recorded as events); under every valuation of the settings it
+   behaves like the hand-written model (Model/CliScript.v): the layer file is loaded and tiled on
+   every path and first, the thumbnail follows the one flag, the name the user gave is set, and
+   index_rel.wtml is written LAST, after the name, by the builder that tiled -- so the description
+   on disk is of the files just written.  Proofs in Proofs/CliWwtlP.v. *)
+From Toasty Require Import Model.CliScript Generated.CliWwtlSrc Proofs.CliWwtlP.
+Local Open Scope string_scope.
+
+Theorem src_tile_wwtl_impl_is_model :
+  forall (is_none : sval unit -> bool) (eq_lit : sval unit -> string -> bool) (is_true : sval unit -> bool),
+  run_tree is_none eq_lit is_true src_cli_tile_wwtl_impl = tile_wwtl_impl_model is_true.
+Proof. exact src_tile_wwtl_impl_eq. Qed.
+Print Assumptions src_tile_wwtl_impl_is_model.
+
+Theorem tile_wwtl_writes_wtml_last_on_the_tiling_builder :
+  forall is_true : sval unit -> bool,
+  exists e1 e2 e3 e4, tile_wwtl_impl_model is_true = (true, [e1; e2; e3; e4]) /\
+    e1 = SMethod ww_builder "load_from_wwtl" [SName "settings"; setting "wwtl_path"] [("cli_progress", SB true)] /\
+    (call_name e2 = "make_placeholder_thumbnail" \/ call_name e2 = "make_thumbnail_from_other") /\
+    e3 = SMethod ww_builder "set_name" [setting "name"] [] /\
+    e4 = SMethod ww_builder "write_index_rel_wtml" [] [] /\
+    call_recv e2 = Some ww_builder.
+Proof. exact wwtl_order. Qed.
+Print Assumptions tile_wwtl_writes_wtml_last_on_the_tiling_builder.
